@@ -245,6 +245,36 @@ def _terminates(body):
     return False
 
 
+def _prime_to_while_true(loop, before, norm):
+    """N24: x = E; ...; while x: BODY; x = E   ->   ...; while True: x = E; if not x: break; BODY
+    (the priming read and the re-read at the end of the body are one read at the head of each iteration)"""
+    from .inline import _has_impure_call, _read_roots, _write_roots
+    if not (isinstance(loop.test, ast.Name) and not loop.orelse and len(loop.body) >= 2):
+        return
+    x = loop.test.id
+    last = loop.body[-1]
+    if not (isinstance(last, ast.Assign) and len(last.targets) == 1 and isinstance(last.targets[0], ast.Name) and last.targets[0].id == x):
+        return
+    if any(isinstance(n, ast.Continue) for s in loop.body for n in ast.walk(s)):
+        return
+    want = ast.dump(last.value)
+    k = len(before) - 1
+    while k >= 0:
+        st = before[k]
+        if isinstance(st, ast.Assign) and len(st.targets) == 1 and isinstance(st.targets[0], ast.Name) and st.targets[0].id == x and ast.dump(st.value) == want:
+            break
+        if not (isinstance(st, ast.Assign) and not _has_impure_call(st.value)) or x in _write_roots(st) or x in _read_roots(st.value) or \
+                (_write_roots(st) & _read_roots(last.value)):
+            return
+        k -= 1
+    if k < 0:
+        return
+    prime = before.pop(k)
+    brk = ast.copy_location(ast.If(test=ast.UnaryOp(op=ast.Not(), operand=ast.Name(id=x, ctx=ast.Load())), body=[ast.Break()], orelse=[]), loop)
+    loop.body = norm._block([prime, brk] + loop.body[:-1])
+    loop.test = ast.copy_location(ast.Constant(value=True), loop.test)
+
+
 def _hoist_invariants(loop):
     """N19: leading statements of a loop body of the form  name = <call-free expression over things the loop never writes>
     are the same before the loop (they are evaluated at least once whenever the body runs; hoisting them when the body never
@@ -477,6 +507,8 @@ class _Norm(ast.NodeTransformer):
             if isinstance(st, ast.Pass) and len(stmts) > 1:
                 i += 1
                 continue
+            if isinstance(st, ast.While):
+                _prime_to_while_true(st, out, self)
             if isinstance(st, (ast.While, ast.For)):
                 out.extend(_hoist_invariants(st))
             out.append(st)
